@@ -1,4 +1,4 @@
-use crate::backend::GenericSocketBackend;
+use crate::backend::{ForgetConn, GenericSocketBackend};
 use crate::codec::{Message, ZmqFramedRead};
 use crate::fair_queue::FairQueue;
 use crate::transport::AcceptStopHandle;
@@ -73,7 +73,8 @@ impl SocketRecv for DealerSocket {
                 }
                 Some((peer_id, Err(e))) => {
                     // A connection that failed is forgotten, like the other socket types do
-                    self.backend.peer_disconnected(&peer_id);
+                    self.backend
+                        .forget_conn(&peer_id, self.fair_queue.last_conn());
                     return Err(e.into());
                 }
                 None => {
